@@ -585,6 +585,8 @@ def run(tier, only=None):
     s6(rep)
     s7(rep)
     s8(rep)
+    from . import variant_dispatch
+    variant_dispatch.report_absyn(rep, "S10", ["ti_bup.c", "ti_tdn.c", "ti_sef.c", "scobind.c", "abcheck.c"], 180)
     from . import selfcompare
     _c06 = [u for u in ("tinfer.c", "ti_bup.c", "ti_tdn.c", "ti_sef.c", "ti_top.c", "tfsat.c", "tform.c", "tposs.c", "terror.c", "scobind.c", "stab.c", "abcheck.c", "sefo.c", "syme.c", "freevar.c", "tqual.c", "absub.c", "ablogic.c", "tfcond.c", "tconst.c") if u in common.compiler_units()]
     selfcompare.report(rep, "S9", _c06, what="(type checker)")
